@@ -14,14 +14,17 @@ from vplib import *
 import lmmm
 from lmmm import *
 
-import importlib.util as _ilu0
+import importlib.util as _ilu0, sys as _sys0
+if os.path.join(VERIF, "checks") not in _sys0.path:
+    _sys0.path.insert(0, os.path.join(VERIF, "checks"))
 def _load_part(name):
     sp = _ilu0.spec_from_file_location("part_" + name, os.path.join(VERIF, "checks", name + ".py"))
     m = _ilu0.module_from_spec(sp); sp.loader.exec_module(m)
     return m
 bvm_part = _load_part("bvm_part")
-OCAML = lmmm.OCAML + bvm_part.OCAML
-HARNESS = lmmm.HARNESS + bvm_part.HARNESS
+lmmt_part = _load_part("lmmt_part")
+OCAML = lmmm.OCAML + bvm_part.OCAML + lmmt_part.OCAML
+HARNESS = lmmm.HARNESS + bvm_part.HARNESS + lmmt_part.HARNESS
 
 
 def near_miss(rng, src):
@@ -306,6 +309,8 @@ def run(ck):
     # ---------------- bytecode part: model VM = real VM on real bytecode, verified bytecode verifier (checks/bvm_part.py) ----------------
     ck.known = _known
     bvm_viol = bvm_part.run_part(ck, quick)
+    # ---------------- type-system part: tc_prog (proved sound for the reference semantics) vs typing.rs (checks/lmmt_part.py) ----------------
+    bvm_viol = bvm_viol + lmmt_part.run_part(ck, quick, site_class=site_class)
     ck.known = known_and_note
     stale = sorted(w["id"] for w, rq in wits if "repaired" not in w and w["id"] in findings and w["id"] not in reproduced)
     listed_without_witness = sorted(set(findings) - {w["id"] for w, _ in wits})
@@ -349,7 +354,13 @@ def finish(ck):
                      "_session_safe: accepted bytecode never faults for any arithmetic, input and number of samples, dsp leaves exactly its declared "
                      "words, storage = published size, cursor home; C03_bvm_fuel: explicit fuel bound) and which is run on the bytecode of every "
                      "generated and shipped program: a rejection of compiler-emitted bytecode is a violation covering all paths.  Outside the "
-                     "bytecode part's subset: closures/upvalues, heap boxes, arrays, integer instructions, machine integer widths."),
+                     "bytecode part's subset: closures/upvalues, heap boxes, arrays, integer instructions, machine integer widths.  TYPE-SYSTEM PART "
+                     "(Props/C03_types.v, theory Lmmt, checks/lmmt_part.py): an executable annotation-driven type checker tc_prog for the core language "
+                     "with closures, and TYPE SOUNDNESS of the reference semantics Lmmx.Ref proved for the whole language (C03_types_sound / "
+                     "_never_stuck / _sound_reachable / _preservation: an accepted program never answers Stuck for any fuel, input or reachable "
+                     "state, and every output row has word_size(return type of dsp) numbers); typing.rs is compared with the extracted tc_prog on "
+                     "generated programs and 44 kinds of type-changing mutants (strict model <= real <= lenient model), everything the real checker "
+                     "accepts is run on both backends."),
         trusted_base=["Coq 8.16.1 kernel", "harness supervision (process exit status, catch_unwind)", "hook H1 bounds data", "lib/lmmm.py generator",
                       "extraction (ExtrOcamlBasic/ExtrOcamlString) + ocaml/bvm_drv.ml (Z/int64 conversion, IEEE and libm arithmetic record, external-function table)",
                       "harness bin bc_dump.rs", "checks/bvm_part.py class predicates and comparison"],
